@@ -48,6 +48,8 @@ func init() {
 			{ID: "C13.R26", Text: "a stopped mitigation stays stopped: the observe ticker field is assigned only where the loop is started (never cleared: reconfigure and Stop read it to know whether a loop runs)", Run: fieldWriters("couchbase", "rollbackMitigation", "observeTimer", "a cleared ticker makes a late cluster-map change start a new observe loop on a stopped mitigation", "rollbackMitigation).startObserve")},
 			{ID: "C13.R27", Text: "the serial close, which waits for one end event per CloseStream, is selected only for servers below 5.5: the constructor's gate is version.Lower(5.5.0) and Lower is the exact lexicographic < for all ints (same rules as C18.R1 and C18.R2)", Run: func(c *Ctx, id string) { c18r1(c, id); c18r2(c, id) }},
 			{ID: "C13.R28", Text: "the session a background loop belongs to ends before the close touches anything: in Stream.Close the session counter is advanced before the streams are closed and before the position map is emptied", Run: sessionAdvancedFirst},
+			{ID: "C13.R29", Text: "the final save and the stream close reach the store and the server themselves: no write-behind, limiting or queueing layer in front of a collaborator that is not a proven pass-through (same rules as C20.R19 and C20.R20)", Run: func(c *Ctx, id string) { decoratorsTransparent()(c, id); noNewLayers(c, id) }},
+			{ID: "C13.R30", Text: "shutdown is the decision of the application: the public Close is used by nobody inside the module (same rule as C11.R25)", Run: closeIsEntryPointOnly},
 			{ID: "C13.R9", Text: "background waits are cancellable: the health checker blocks only in selects with a ctx.Done() case (same rule as C19.R2)", Run: c19r2},
 			{ID: "C13.R10", Text: "a cancel signal closes with closeWithCancel=true: the flag is raised in the branch of the wait that received the signal, before the close path runs, and is what Stream.Close receives", Run: c13r10},
 			{ID: "C13.R8", Text: "closeAllStreams closes every assigned vBucket: the serial branch iterates vbIDRange.Start..End inclusive, the parallel branch ranges over every tracked position", Run: closeAllRange},
